@@ -283,6 +283,28 @@ def mask_constraint(v, mask):
     return terms[0] if len(terms) == 1 else z3.Or(terms)
 
 
+def cross_check(assertions, claim, z3_sat, log):
+    """re-decide one leaf obligation with cvc5 on the SMT-LIB2 text; disagreement / error is recorded"""
+    import subprocess
+    s2 = z3.Solver()
+    s2.add(assertions)
+    s2.add(z3.Not(claim))
+    text = '(set-logic ALL)\n' + s2.to_smt2().replace('(set-info :status unknown)', '')
+    t0 = time.time()
+    try:
+        p = subprocess.run(['cvc5', '--lang', 'smt2', '--tlimit=60000'], input=text.encode(), stdout=subprocess.PIPE, stderr=subprocess.PIPE, timeout=90)
+        out = p.stdout.decode().strip().split('\n')[0] if p.stdout else ''
+        err = p.stderr.decode()
+    except Exception as e:       # noqa
+        out, err = 'error', str(e)
+    log['n'] = log.get('n', 0) + 1
+    log['s'] = log.get('s', 0.0) + time.time() - t0
+    if out not in ('sat', 'unsat') or '(error' in err or '(error' in out:
+        log.setdefault('problems', []).append('cvc5 answered %r %s' % (out, err[:200]))
+    elif (out == 'sat') != z3_sat:
+        log.setdefault('problems', []).append('z3 says %s, cvc5 says %s' % ('sat' if z3_sat else 'unsat', out))
+
+
 class Cut(Exception):
     """exploration stopped at the split depth; the prefix becomes a work item"""
 
@@ -509,10 +531,11 @@ class Ctx:
         claim = _simplify(claim)
         if z3.is_true(claim):
             return None
-        if self.smtlog is not None:
-            self._flush()
-            self.smtlog.append((list(self.solver.assertions()), claim))
-        if self._check(z3.Not(claim)):
+        sat = self._check(z3.Not(claim))
+        if self.smtlog is not None and self.smtlog.get('quota', 0) > 0:
+            self.smtlog['quota'] -= 1
+            cross_check(self.solver.assertions(), claim, sat, self.smtlog)
+        if sat:
             return self.solver.model()
         return None
 
